@@ -55,6 +55,14 @@ PoolF(ids, conds) ==
 PoolFq == PoolF({1, 2}, {<<{}, FALSE>>})
 PoolFt == PoolF({1, 2, 3}, {<<{}, FALSE>>})
 
+\* a redirect target under lists of THREE codes (written in descending order by the harness), included and excluded: the status, the
+\* Location rewrite, the rule's own filters and its trace each carry their own copy of the condition
+CondG == { <<{200, 404, 500}, FALSE>>, <<{200, 404, 500}, TRUE>>, <<{404, 500}, FALSE>>, <<{200, 404}, TRUE>> }
+PoolG(ids) ==
+  UNION { { R(i, rk, TRUE, cd, hf, "/t" \o IdOf(i), <<>>, "none", FALSE, FALSE, "none") :
+              rk \in {0, 1}, cd \in CondG, hf \in HfKinds(i, {1, 2}) } : i \in ids }
+PoolGq == PoolG({1, 2})
+
 Q(k, c) == [k |-> k, c |-> c]
 Proxy(c) == << Q("status", 0), Q("status", c), Q("headers", c), Q("body", c), Q("log", c) >>
 ProxyHandoff(c) == << Q("status", 0), Q("handoff", 0), Q("headers", c), Q("status", c), Q("body", c), Q("log", c) >>
@@ -65,6 +73,7 @@ Mixed == << Q("headers", 404), Q("handoff", 0), Q("headers", 200), Q("status", 0
 ScriptsQuick == { ProxyHandoff(404), Backwards(200) }
 ScriptsFull == { Proxy(200), Proxy(404), ProxyHandoff(404), ProxyHandoff(200), Backwards(200), Backwards(404), RequestTime, Mixed }
 ScriptsOne == { ProxyHandoff(404) }
+ScriptsCodes == { Proxy(500), Proxy(200), ProxyHandoff(404) }
 
 PoolAq == PoolA({1, 2}, Cond3, {"none", "on"})
 PoolAt == PoolA({1, 2}, Cond, {"none", "on", "off"})
